@@ -26,6 +26,63 @@ check(
     "3/C17",
 )
 
+check(
+    "C01",
+    "exhaustive enumeration of the scope-program grammar (forests of scope/update blocks x "
+    "supplies x probe positions) on the real context vs an environment-stack interpreter",
+    "Every program of the stated grammar (all nestings up to N blocks, 4 block kinds, 8 supplies, "
+    "probes at every position) is executed on the real ctx and every lookup compared with an "
+    "independent environment-stack interpreter; complete for the grammar, nothing sampled.",
+    "state family {A, A2(A), R, G[int]}; trees deeper/wider than the bound are not covered.",
+    "3/C01",
+)
+check(
+    "C12",
+    "explicit-state search over call / clock-advance histories on the real cache (sync, async, "
+    "method) vs a reference LRU with time stamps",
+    "All histories up to length L over ==-equal differently typed keys, value-equal receivers "
+    "and clock advances, for every limit/expiration/variant; oracle evaluated after every step.",
+    "virtual monotonic clock; wrapped function instantaneous and never failing; L bounded.",
+    "3/C12",
+)
+check(
+    "C13",
+    "stateless DFS over schedules (prefix replay) of caller start/cancel, invocation completion "
+    "and expiry on the real async cache",
+    "Every interleaving of the environment actions (incl. two events in one loop iteration) for "
+    "2-4 callers over 1-2 keys is executed on the real code; single-flight, isolation of "
+    "cancellation and delivery are checked against a reference model on each.",
+    "asyncio FIFO callback order inside one loop iteration; callers started in index order.",
+    "3/C13",
+)
+check(
+    "C14",
+    "exhaustive fault-sequence enumeration (chooser-driven outcomes of the wrapped function) on "
+    "the real retry wrapper vs a counter-loop reference",
+    "All reachable outcome sequences for all configurations; number of calls, identity of the "
+    "final value/exception, pauses and delay-function arguments compared with the reference.",
+    "virtual sleep; the wrapped call takes no time.",
+    "3/C14",
+)
+check(
+    "C15",
+    "exhaustive enumeration of arrival patterns on a P/2 grid x all orders of equal-deadline "
+    "timers on the real throttle in exact virtual time",
+    "Every arrival pattern up to n calls on the grid with every tie order; window, order, "
+    "no-needless-delay and outcome clauses evaluated from exact virtual start times.",
+    "grid arrivals only (multiples of P/2); same-instant arrivals are symmetric.",
+    "3/C15",
+)
+check(
+    "C16",
+    "exhaustive schedule exploration of timer orders and caller-cancellation instants on the "
+    "real timeout wrapper (virtual time, micro-batching)",
+    "Full product of function behaviours x caller-cancel instants x tie orders; termination, "
+    "outcome, cancellation propagation and clean callbacks checked on each execution.",
+    "virtual time; the function's reaction to cancellation is one of the characterised kinds.",
+    "3/C16",
+)
+
 NOT_BUILT_REASON = (
     "check not built yet in this round (design in DESIGN.md section 3); not claimed until its "
     "harness exists and is silent on the unchanged tree"
